@@ -197,6 +197,13 @@ Theorem C12_partial_poll_progress_kept c sched :
   delivered (rc_log c) ++ map fst (rc_pending c).
 Proof. split; [reflexivity|exact (partial_poll_progress_kept c sched)]. Qed.
 
+(* ... in particular the heights handed to the listeners are consecutive from the SPV client's tip (`consecutive`
+   is the monitor the check evaluates on the blocks the real chain monitor hands to the real listeners, also
+   when monitor_chain itself is driven with a download that stalls longer than the polling interval) *)
+Theorem C12_blocks_delivered_exactly_once c sched :
+  rc_log c = [] -> consecutive (rc_height c) (delivered_heights (rc_log (rrun_config c sched))) = true.
+Proof. exact (delivered_heights_consecutive c sched). Qed.
+
 (* non-vacuity: kernel-evaluated executions (ConcReachWitness.v) *)
 Example C12_request_path_recovers_instance :
   let c := rrun_config (wr_request_quiet 1 [true]) wr_recover_sched in
@@ -238,3 +245,4 @@ Print Assumptions C12_recovered_run_is_the_fault_free_run.
 Print Assumptions C12_block_path_stuck_refuted_threads.
 Print Assumptions C12_request_path_can_stick_refuted_threads.
 Print Assumptions C12_partial_poll_progress_kept.
+Print Assumptions C12_blocks_delivered_exactly_once.
